@@ -99,6 +99,9 @@ def cases(tier, seed):
                 # other legal spellings of the path: ./name, a parent step (sub/../name, sub/dir.1/../dir.1/name), an absolute path
                 for style in ("dot", "dotdot", "dotdot.deep", "abs"):
                     yield {"k": "split", "base": name, "lines": lines, "plan": plan, "subdir": style}
+            if len(plan) <= 2 and (name in BIG and zlib.crc32(key.encode()) % 4 == 1 or (n <= 2 and zlib.crc32(key.encode()) % 4 == 0)):
+                # included files whose last line has no line end (the file simply stops after the last character)
+                yield {"k": "split", "base": name, "lines": lines, "plan": plan, "noeol": True}
             if name in BIG and len(plan) <= 2 and (zlib.crc32(key.encode()) % 8 == 3 or (_depth(plan) >= 2 and zlib.crc32(key.encode()) % 2 == 0)):
                 # the mnemonic in another letter case (mnemonics are case-insensitive): everywhere, or only inside the included files
                 for kw in ("lower", "mixed", "nested.lower", "nested.mixed"):
@@ -245,7 +248,8 @@ def check_case(case):
             for fn, content in files.items():
                 if not content and case.get("banner"):
                     content = ["; a file of comments only", "", "        ; nothing else"]
-                open(fn, "w").write("".join(ln + "\n" for ln in content))
+                text = "".join(ln + "\n" for ln in content)
+                open(fn, "w").write(text[:-1] if case.get("noeol") and text else text)
             got = common.assemble_confirm(main)
             if ref["kind"] != got["kind"]:
                 if ref["kind"] in ("OK", "DIAG"):
@@ -262,7 +266,7 @@ def check_case(case):
             depth = _depth(case["plan"])
             sd = case.get("subdir")
             cell = "split|{}|files={}|depth={}{}".format(case["base"].split(":")[0], len(files), depth, "" if not sd else "|subdir" if sd is True else "|path." + sd) + \
-                   ("|kw." + case["kw"] if case.get("kw") else "")
+                   ("|kw." + case["kw"] if case.get("kw") else "") + ("|noeol" if case.get("noeol") else "")
             if sd:
                 os.makedirs("sub/dir.1")
                 files = {os.path.normpath(fn): content for fn, content in files.items()}
@@ -270,7 +274,8 @@ def check_case(case):
             for fn, content in files.items():
                 if not content and case.get("banner"):
                     content = ["; a file of comments only", "", "        ; nothing else"]
-                open(fn, "w").write("".join(ln + "\n" for ln in content))
+                text = "".join(ln + "\n" for ln in content)
+                open(fn, "w").write(text[:-1] if case.get("noeol") and text else text)
             got = common.assemble_confirm(main)
             if ref["kind"] != got["kind"]:
                 if ref["kind"] in ("OK", "DIAG"):
